@@ -263,6 +263,38 @@ Definition lab_ms_of (leaves : list Z) (v : Z) : str :=
 Definition lab_dict (d : list (Z * str)) (v : Z) : str :=
   match lookup d v with Some s => s | None => [] end.
 
+(* ts.samples(): the sample nodes in id order; the dictionary Tree.as_newick builds for the general
+   path when node_labels is None: {u: f"n{u}" for u in self.tree_sequence.samples()} *)
+Definition samples_of (a : ctree) : list Z :=
+  filter (is_sample a) (map Z.of_nat (seq 0 (length (ct_flags a)))).
+Definition default_dict (samples : list Z) : list (Z * str) :=
+  map (fun u => (u, c18_label_prefix ++ dec u)) samples.
+
+(* tree.children(u) as the C library computes it: left_child[u], then right_sib[...] (C01) *)
+Fixpoint chain_rs (fuel : nat) (rs : list Z) (w : Z) : res (list Z) :=
+  match fuel with
+  | O => Fuel
+  | S f => if w =? -1 then Ok [] else do nxt <- get rs w; do r <- chain_rs f rs nxt; Ok (w :: r)
+  end.
+Definition children_c (a : ctree) (rs : list Z) (v : Z) : res (list Z) :=
+  do lcv <- get (ct_lc a) v; chain_rs (S (length rs)) rs lcv.
+
+(* alignments(): the reference (or L copies of the missing-data character) overwritten at the
+   site positions by the sample's haplotype (trees.py: a[:] = ref; a[site_pos - left] = h) *)
+Fixpoint set_at (s : str) (i : nat) (c : Z) : str :=
+  match s, i with
+  | [], _ => []
+  | _ :: r, O => c :: r
+  | x :: r, S i' => x :: set_at r i' c
+  end.
+Fixpoint fill_sites (a : str) (pos : list Z) (h : str) : str :=
+  match pos, h with
+  | p :: ps, c :: hs => fill_sites (set_at a (Z.to_nat p) c) ps hs
+  | _, _ => a
+  end.
+Definition alignment_of (L : Z) (ref : option str) (mdc : Z) (pos : list Z) (h : str) : str :=
+  fill_sites (match ref with Some r => r | None => repeat mdc (Z.to_nat L) end) pos h.
+
 Section Writers.
   (* times and their rendering are abstract (trusted base) *)
   Variable Tm : Type.
@@ -574,6 +606,15 @@ Definition read_tree_line (l : str) : option ((str * str) * str) :=
   end.
 Fixpoint filter_map {A B} (f : A -> option B) (l : list A) : list B :=
   match l with [] => [] | x :: r => match f x with Some y => y :: filter_map f r | None => filter_map f r end end.
+(* names of the blocks of a nexus file: the lines "BEGIN <name>;" *)
+Definition block_name (l : str) : option str :=
+  match strip_prefix (s2z "BEGIN ") l with
+  | Some r => match rev r with 59 :: b => Some (rev b) | _ => None end
+  | None => None
+  end.
+
+Definition block_names (lines : list str) : list str := filter_map block_name lines.
+
 Definition read_nexus_trees (lines : list str) : list ((str * str) * str) :=
   filter_map read_tree_line lines.
 
@@ -714,6 +755,22 @@ Definition c18_check_size_bound (a : ctree) (num_samples num_edges : Z) : bool :
 (* buffer size alone, for node counts beyond what the string checks can carry *)
 Definition c18_check_bufsize (N W B : Z) : bool := estimate N W =? B.
 
+(* default label dictionary of the general path, sibling order through right_sib, alignments fill *)
+Definition c18_check_default_dict (a : ctree) (t : rtree) (samples : list Z) : bool :=
+  list_eqb Z.eqb (samples_of a) samples &&
+  forallb (fun v => str_eqb (lab_dict (default_dict samples) v) (lab_default a v)) (ids t).
+
+Fixpoint c18_check_children (a : ctree) (rs : list Z) (t : rtree) : bool :=
+  match t with
+  | RN v kids =>
+      (match children_c a rs v with Ok l => list_eqb Z.eqb l (map rid kids) | _ => false end) &&
+      forallb (c18_check_children a rs) kids
+  end.
+
+Definition c18_check_alignments (L : Z) (ref : option str) (mdc : Z) (pos : list Z)
+           (haps als : list str) : bool :=
+  list_eqb str_eqb (map (alignment_of L ref mdc pos) haps) als.
+
 Definition c18_check_wrap (s : str) (w : Z) (obs : option (list str)) : bool :=
   match wrap_text s w, obs with
   | Ok ls, Some o => list_eqb str_eqb ls o
@@ -735,6 +792,8 @@ Definition c18_check_nexus (samples : list Z) (inc_al : bool) (nchar : Z) (mdc :
   list_eqb (fun x y => str_eqb (fst (fst x)) (fst (fst y)) && str_eqb (snd (fst x)) (snd (fst y))
                        && str_eqb (snd x) (snd y))
            (read_nexus_trees lines) (if inc_trees then trees else []) &&
+  list_eqb str_eqb (block_names lines)
+           ([s2z "TAXA"] ++ (if inc_al then [s2z "DATA"] else []) ++ (if inc_trees then [s2z "TREES"] else [])) &&
   opt_eqb (list_eqb str_eqb) (read_nexus_taxa lines)
           (Some (map (fun u => c18_label_prefix ++ dec u) samples)) &&
   list_eqb (fun x y => str_eqb (fst x) (fst y) && str_eqb (snd x) (snd y))
